@@ -1826,6 +1826,16 @@ pub fn inject_malformed(rng: &mut Rng, h: &[Op], count: usize) -> (Vec<Op>, Vec<
 }
 
 /// Read requests worth interleaving, built from what the run has seen (real contract addresses).
+/// a call on which revm answers with an error instead of an execution result: the blake2f
+/// precompile (0x09) called directly with a malformed input, or a sender that carries code
+fn hard_error_call(rng: &mut Rng, from: &Option<Hx>, tool: &Option<Hx>) -> CallSpec {
+    let mut blake = vec![0u8; 20]; blake[19] = 9;
+    match (rng.below(2), tool) {
+        (0, Some(t)) => CallSpec { from: Some(t.clone()), to: tool.clone(), data: Hx(cd::sstore(U256::from(1), U256::from(99))) },
+        _ => CallSpec { from: from.clone(), to: Some(Hx(blake)), data: Hx(vec![1, 2, 3]) },
+    }
+}
+
 pub fn gen_reads(rng: &mut Rng, u: &Universe, height: Option<u64>, n: usize) -> Vec<Op> {
     let mut out = Vec::new();
     let tools: Vec<Hx> = u.contracts.iter().filter(|c| c.hex() != CONTROLLER).cloned().collect();
@@ -1851,11 +1861,18 @@ pub fn gen_reads(rng: &mut Rng, u: &Universe, height: Option<u64>, n: usize) -> 
                 ];
                 if rng.chance(1, 3) { calls.push(CallSpec { from: from.clone(), to: tool.clone(), data: Hx(cd::revert()) }); }
                 if rng.chance(1, 3) { calls.insert(0, CallSpec { from: from.clone(), to: None, data: Hx(multitool_init()) }); }
+                // a later call that makes the EVM return a hard error (not a revert): the batch
+                // is abandoned half-way, after earlier calls have written to the journal
+                if rng.chance(1, 3) { calls.push(hard_error_call(rng, &from, &tool)); }
                 let ids = if rng.chance(1, 2) { Some(calls.iter().map(|_| Hx::n32(rng.below(1000))).collect()) } else { None };
                 Op::EthCallMany { calls, block, op_return_tx_ids: ids }
             }
             7 => Op::EstimateGas { from, to: tool.clone(), data: Hx(if rng.chance(1, 2) { cd::sstore(U256::from(1), U256::from(7)) } else { cd::context() }), block },
-            8 => Op::EstimateGasMany { calls: vec![CallSpec { from: from.clone(), to: tool.clone(), data: Hx(cd::sstore(U256::from(2), U256::from(7))) }, CallSpec { from, to: tool.clone(), data: Hx(cd::create()) }], block },
+            8 => {
+                let mut calls = vec![CallSpec { from: from.clone(), to: tool.clone(), data: Hx(cd::sstore(U256::from(2), U256::from(7))) }, CallSpec { from: from.clone(), to: tool.clone(), data: Hx(cd::create()) }];
+                if rng.chance(1, 3) { calls.push(hard_error_call(rng, &from, &tool)); }
+                Op::EstimateGasMany { calls, block }
+            }
             9 => Op::Balance { pkscript: PKSCRIPTS[rng.below(4) as usize].to_string(), ticker: TICKERS[rng.below(5) as usize].to_string() },
             10 => { let a = rng.below(h + 2); let b = a + rng.below(7); Op::GetLogs { from: Some(hexn(a)), to: Some(hexn(b)), address: None, topics: None } }
             11 => Op::GetLogs { from: Some(hexn(h)), to: Some(hexn(h.saturating_sub(1 + rng.below(2)))), address: tool.clone(), topics: Some(json!([[Hx::n32(70).hex0x(), null]])) },
